@@ -144,7 +144,46 @@ def _obs_store(ds, prefix_logs=True):
     )
 
 
-class RealDir:
+class _Members:
+    """member objects obtained earlier on the LIVE handle (returned by write()/write_not_completed(), listed by
+    completed / not_completed) are kept, and re-read later through every access path"""
+
+    def keep(self, m):
+        if m is not None and all(m is not x for x in self.kept):
+            self.kept.append(m)
+
+    def keep_listed(self):
+        try:
+            for m in list(self.ds.completed) + list(self.ds.not_completed):
+                self.keep(m)
+        except Exception:  # noqa: BLE001  (connection refused etc.)
+            pass
+
+    def stale(self):
+        """first disagreement between an earlier member object and the store: (what, unique_id, via member, via store)"""
+        for m in self.kept:
+            uid = m.unique_id
+            try:
+                now = self.ds.read(uid)
+            except Exception:  # noqa: BLE001  the record is gone (dropped / retired) or the connection is refused
+                continue
+            try:
+                got = m.read()
+                if got != now:
+                    return ("read", uid, got, now)
+                a, b = m.md5, self.ds.md5(uid)
+                if a != b:
+                    return ("md5", uid, a, b)
+                if a is not None and isinstance(now, str) and a != md5hex(now):
+                    return ("md5-vs-content", uid, a, md5hex(now))
+                if str(m) != uid:
+                    return ("unique_id", uid, str(m), uid)
+            except Exception as e:  # noqa: BLE001
+                return ("raised", uid, type(e).__name__, None)
+        return None
+
+
+class RealDir(_Members):
     kind = "dir"
 
     def __init__(self, path, sfx, mode):
@@ -153,15 +192,18 @@ class RealDir:
         self.K = DataStoreDirectory
         self.path, self.sfx = path, sfx
         self.ds = self.K(path, mode=mode, suffix=sfx)
+        self.kept = []
 
     def apply(self, op):
         k = op[0]
         try:
             if k == "w":
                 r = self.ds.write(unique_id=op[1], data=op[2])
+                self.keep(r)
                 return {"r": None if r is None else r.unique_id}
             if k == "nc":
                 r = self.ds.write_not_completed(unique_id=op[1], data=op[2])
+                self.keep(r)
                 return {"r": None if r is None else r.unique_id}
             if k == "log":
                 self.ds.write_log(unique_id=op[1], data=op[2])
@@ -171,11 +213,14 @@ class RealDir:
                 return {"r": None}
             if k == "reopen":
                 self.ds = self.K(self.path, mode=op[1], suffix=self.sfx)
+                self.kept = []
                 return {"r": None}
             if k == "unlock":
                 return {"r": None}
             if k == "obs":
-                return {"r": None, "obs": _obs_store(self.ds)}
+                o = _obs_store(self.ds)
+                self.keep_listed()
+                return {"r": None, "obs": o}
         except Exception as e:  # noqa: BLE001
             return {"r": _err(e)}
         raise ValueError(k)
@@ -194,7 +239,7 @@ class RealDir:
         shutil.rmtree(self.path, ignore_errors=True)
 
 
-class RealSql:
+class RealSql(_Members):
     kind = "sql"
 
     def __init__(self, path, sfx, mode):
@@ -203,15 +248,18 @@ class RealSql:
         self.K = DataStoreSqlite
         self.path = path
         self.ds = self.K(path, mode=mode)
+        self.kept = []
 
     def apply(self, op):
         k = op[0]
         try:
             if k == "w":
                 r = self.ds.write(unique_id=op[1], data=op[2])
+                self.keep(r)
                 return {"r": None if r is None else r.unique_id}
             if k == "nc":
                 r = self.ds.write_not_completed(unique_id=op[1], data=op[2])
+                self.keep(r)
                 return {"r": None if r is None else r.unique_id}
             if k == "log":
                 self.ds.write_log(unique_id=op[1], data=op[2])
@@ -226,12 +274,15 @@ class RealSql:
                     pass
                 self._hard_close()
                 self.ds = self.K(self.path, mode=op[1])
+                self.kept = []
                 return {"r": None}
             if k == "unlock":
                 self.ds.unlock()
                 return {"r": None}
             if k == "obs":
-                return {"r": None, "obs": _obs_store(self.ds)}
+                o = _obs_store(self.ds)
+                self.keep_listed()
+                return {"r": None, "obs": o}
         except Exception as e:  # noqa: BLE001
             return {"r": _err(e)}
         raise ValueError(k)
@@ -317,8 +368,11 @@ def detect_cfg(ctx):
     ro_open = not r[2]["d"][0]
     # write_not_completed on a read-only store is only observable when the constructor did not create the directory
     ro_write = ro_open and not r[3]["d"][0]
-    _CFG["v"] = dict(ro_open=ro_open, ro_write=ro_write)
-    ctx.notes.append(f"code variant detected by behaviour (read-only store creates no directory): {_CFG['v']}")
+    # order of the two writes of _write: record first leaves a stray file for an identifier with a directory part
+    r2 = run_real(ctx, "dir", "probe2", "fasta", "w", [["w", "logs/x.fasta", "1"], ["obs"]])
+    md5_first = not any(m[0] == "logs/x.fasta" for m in r2[1]["obs"]["logs"])
+    _CFG["v"] = dict(ro_open=ro_open, ro_write=ro_write, md5_first=md5_first)
+    ctx.notes.append(f"code variant detected by behaviour (read-only store creates no directory; _write puts the md5 file first): {_CFG['v']}")
     return _CFG["v"]
 
 
@@ -507,7 +561,7 @@ def correspondence(ctx):
             hist.append((sfx, mode, ops))
         cmd = "dir" if kind == "dir" else "sql"
         model = ctx.driver.batch(
-            [(cmd, dict(ro_open=cfg["ro_open"], ro_write=cfg["ro_write"], sfx=sfx, mode=mode, ops=ops)) for sfx, mode, ops in hist]
+            [(cmd, dict(ro_open=cfg["ro_open"], ro_write=cfg["ro_write"], md5_first=cfg["md5_first"], sfx=sfx, mode=mode, ops=ops)) for sfx, mode, ops in hist]
         )
         for i, ((sfx, mode, ops), mod) in enumerate(zip(hist, model)):
             real = run_real(ctx, kind, f"c{i}", sfx, mode, ops, want_validate=True)
@@ -854,6 +908,13 @@ def check_history(ctx, kind, sfx, mode, ops, tag="h", stop_at_first=True):
                 sig = _classify(kind, sfx, op0, last_res, None, exp_l, got_l, last_before)
                 return dict(what=f"after {op0[:2]} the log records differ from the dictionary model",
                             input=dict(store=kind, sfx=sfx, mode=mode, ops=ops[: i + 1]), expected=exp_l, got=got_l, sig=sig), stats
+            # member objects obtained earlier must agree with the store through every access path
+            st = store.stale()
+            if st is not None:
+                op0 = last_op or ["obs"]
+                sig = _classify(kind, sfx, op0, last_res, None, {}, {}, last_before, force_parts=[f"stale-member-{st[0]}"])
+                return dict(what=f"after {op0[:2]} a member object obtained earlier disagrees with the store ({st[0]} of {st[1]})",
+                            input=dict(store=kind, sfx=sfx, mode=mode, ops=ops[: i + 1]), expected=dict(via_store=st[3]), got=dict(via_member=st[2]), sig=sig), stats
             if unexpected:
                 sig = _classify(kind, sfx, last_op, last_res, None, {}, {}, last_before, force_parts=["unexpected-raise"])
                 return dict(what=f"{last_op[:2]} raised {last_res['err']} although the dictionary model accepts it (state unchanged / as expected)",
